@@ -2,9 +2,9 @@ SPECIFICATION Spec
 CONSTANTS
   N = 4
   Txns = {1, 2}
-  ByteRMW = TRUE
+  ByteRMW = FALSE
   EarlyRelease = FALSE
   FreeFirst = FALSE
-  CancelAlloc = FALSE
+  CancelAlloc = TRUE
 INVARIANTS NeverTwice Coherent
 CHECK_DEADLOCK FALSE
